@@ -106,9 +106,9 @@ func TierB(tier string) []Spec {
 		Block: PBlock{Txs: []string{"m1 cancels order 1"}}, CheckTx: true, Threads: [][]string{{"LimitOrders", "LimitOrdersOfPool"}}, Bound: 1})
 	add(Spec{Name: "B1/book add limit order | BestTrade,SwapPools", World: "book", Block: PBlock{Txs: []string{"m1 sale 1000/1000 (price 1)"}}, CheckTx: true,
 		Threads: [][]string{{"BestTrade", "SwapPools"}}, Bound: 1})
-	add(Spec{Name: "B1/stake delegate | Candidate,WaitList", World: "stake", Block: PBlock{Txs: []string{"d1 delegate 100 BIP to c1"}}, CheckTx: true,
-		Threads: [][]string{{"Candidate", "WaitList"}}, Bound: 1})
 	if tier != "quick" {
+		add(Spec{Name: "B1/stake delegate | Candidate,WaitList", World: "stake", Block: PBlock{Txs: []string{"d1 delegate 100 BIP to c1"}}, CheckTx: true,
+			Threads: [][]string{{"Candidate", "WaitList"}}, Bound: 1})
 		add(Spec{Name: "B1/stake unbond at the payout boundary | Candidates,Address", World: "stake", Prefix: []PBlock{{Txs: []string{"d1 delegate 100 BIP to c1"}}},
 			Block: PBlock{Txs: []string{"d1 unbond 100 of 3333.3 BIP from c1"}}, Threads: [][]string{{"Candidates", "Address"}}, Bound: 1})
 		add(Spec{Name: "B1/coin create pool + fee through pool | 2 query threads", World: "coin",
@@ -150,6 +150,8 @@ func TierB(tier string) []Spec {
 		Threads: [][]string{{"LimitOrdersOfPool"}}, Span: "DeliverTx", Bound: 2})
 	add(Spec{Name: "B2/bookdisk Commit(taker sells) | SwapPools", World: "bookdisk", Block: PBlock{Txs: []string{"1000 order and half of the next 2000"}},
 		Threads: [][]string{{"SwapPools"}}, Span: "Commit", Bound: 2})
+	add(Spec{Name: "B2/stake DeliverTx(delegate) | Candidate", World: "stake", Block: PBlock{Txs: []string{"d1 delegate 100 BIP to c1"}},
+		Threads: [][]string{{"Candidate"}}, Span: "DeliverTx", Bound: 2})
 	add(Spec{Name: "B2/pay DeliverTx(send, fee through pool) | BestTrade", World: "pay", Block: PBlock{Txs: []string{"A->B 10 BIP gas TOKA"}},
 		Threads: [][]string{{"BestTrade"}}, Span: "DeliverTx", Bound: 2})
 	if tier != "quick" {
